@@ -39,7 +39,7 @@ if __name__ == "__main__":
     for s in json.load(open(os.path.join(vlib.SPEC, "scenarios.json"))):
         if names != "all" and s["name"] not in names.split(","):
             continue
-        if any(op[0] == "change" for th in s["threads"] for op in th):
+        if False:
             print(s["name"], "skipped (tree changes are not in the FINE model)")
             continue
         print(s["name"], conform(geo, s["name"], bound, limit), flush=True)
